@@ -11,7 +11,10 @@ import warnings
 PROBES_DEC = ['[C][#C]', '[C][=C][Branch1][C][F][=O]', '[N][=N][#N]', '[S][=S][=S][=S][F]', '[Cl][Cl][Cl]',
               '[CH5][C][C]', '[PH4][C]', '[OH3]', '[NH4][F]', '[C][PH6][C]', '[Si][=Si][=Si][=Si]', '[Fe+2][=C][#C]',
               '[C][I-1][C]', '[O-1][C][C]', '[B-1][=C][=C][=C]', '[C][C][C][Ring1][Ring1][#C]', '[Al][C][C][C][C]',
-              '[C+1][=C][=C]', '[N+1][#C][C]', '[Xe][F][F]']
+              '[C+1][=C][=C]', '[N+1][#C][C]', '[Xe][F][F]',
+              # multi-symbol indices with a non-zero high digit, plain chains and rings after earlier odd calls
+              '[C]' * 24 + '[Ring2][Ring1][Ring1]', '[C][C][C]', '[C][Branch2][Ring1][C]' + '[C]' * 20 + '[O]',
+              '[C]' * 40 + '[Ring2][Ring2][Branch1][N]', '[C][C][C][C][Ring1][Ring2]']
 PROBES_ENC = ['CC(C)(C)C', 'C[PH4]', 'N(C)(C)(C)C', 'c1ccccc1', 'C[Al](C)C', 'O=S(=O)(=O)=O', '[NH4+]', 'C[I-]C',
               'FC(F)(F)(F)F', 'C[N+](C)(C)(C)C', 'C1CC1C2CC2', 'C%12CC%12O', 'CCCC1', 'N[C@](F)(Cl)C1CC1', 'C[C@]12CCCC2CCC1',
               'F/C=C/C=C\\F', 'C2CCC1CC12']
@@ -19,7 +22,14 @@ PROBES_ENC = ['CC(C)(C)C', 'C[PH4]', 'N(C)(C)(C)C', 'c1ccccc1', 'C[Al](C)C', 'O=
 # a rejected call must leave nothing behind either
 REJECTS_ENC = ['C1CCC', 'CC2CC[Xx]', 'C%12CC(', 'C(', 'C)C', 'C1CC2', 'c1cccc1', 'C=#C', 'CC(C', 'C%1', '1CC1', 'C((C))',
                'C[C@@](F)(Cl)(Br)(I)C1', 'c1ccccc1c', '[CH3', 'C..C', '(C)C', 'C1CC1(', 'C/=C', 'C12CC']
-REJECTS_DEC = ['[C][', '[Xx][C]', '[C][Branch1', '][C]', '[C][C@@@]', '[CH99]', '[C][=Ring1][Zz]', '[Ring1][', '[C]..[[C]']
+REJECTS_DEC = ['[C][', '[Xx][C]', '[C][Branch1', '][C]', '[C][C@@@]', '[CH99]', '[C][=Ring1][Zz]', '[Ring1][', '[C]..[[C]',
+               # rejected only AFTER ring bonds were queued / branches opened / atoms attached
+               '[C][C][C][Ring1][Ring1][Foo]', '[C][C][C][=Ring1][Ring1][C][', '[C][C][Branch1][Ring1][C][Ring1][Ring1][Zz]',
+               '[N][C][C][Ring1][C].[O][Bar]', '[C][C][C][C][Ring2][C][C][Xx]', '[C][C][C][Ring1][Ring1][Foo]']
+# accepted but unusual: non-index symbols in index slots, indices cut off by the end of the string, empty branches
+ODD_DEC = ['[C][C][Branch1][F][C][C]', '[C][C][C][Ring1]', '[C][C][C][Ring2][Ring1]', '[C][Branch2][Cl][C][C]', '[C][C][Ring1][Br]',
+           '[C][Branch1]', '[C][C][C][C][Ring3][O]', '[C][=Branch1][C][epsilon][#C]', '[C][Branch1][C][Ring1][C]',
+           '[C][C][C][Ring1][N+1][C]', '[O][Ring1][Ring1][Ring1]']
 CUSTOM = [
     {'?': 3, 'C': 6, 'N': 1, 'O': 0, 'P': 7, 'S': 1, 'I-1': 0, 'Si': 2},
     {'?': 8, 'C': 2, 'N': 5, 'O': 3, 'Cl': 3, 'Xe': 2, 'Fe+2': 1, 'Al': 1},
@@ -238,8 +248,10 @@ def apply_op(op, model, log):
                     sf.encoder(p, **kw)
                 except Exception:
                     pass
-        for p in REJECTS_DEC:
-            for kw in ({}, {'attribute': True}, {'compatible': True}):
+        # the LAST call of this step is a rejected one that had already queued a ring bond: whatever it leaves behind
+        # is met by the probes that follow
+        for p in ODD_DEC + REJECTS_DEC:
+            for kw in ({'attribute': True}, {'compatible': True}, {}):
                 try:
                     with warnings.catch_warnings():
                         warnings.simplefilter('ignore')
